@@ -141,6 +141,12 @@ func findClosest(query fastaio.EncodedFastaRecord, measure string, cIn chan fast
 			distance = tn93Distance(query, target)
 		}
 
+		// if the pair has no site that is resolved in both sequences the distance is
+		// undefined (NaN), and NaN compares false with everything: rank such a target last
+		if math.IsNaN(distance) {
+			distance = math.Inf(1)
+		}
+
 		if first {
 			snps = make([]string, 0)
 			for i, tNuc := range target.Seq {
